@@ -165,7 +165,14 @@ class UserAddNode(ActionGroup):
         if pred is not None and succ is not None:
             self.actions.append(DeleteEdge(tracks, (pred, succ)))
         # add predecessor and successor edges
-        self.actions.append(AddNode(tracks, node, attributes, pixels))
+        try:
+            self.actions.append(AddNode(tracks, node, attributes, pixels))
+        except Exception:
+            # AddNode refused its arguments (e.g. a mask that cannot be painted): invert
+            # the sub-actions applied so far, so that the refused action changes nothing
+            for action in reversed(self.actions):
+                action.inverse()
+            raise
         if pred is not None:
             self.actions.append(AddEdge(tracks, (pred, node)))
         if succ is not None:
